@@ -17,7 +17,14 @@ def run(ctx):
         import bundle as B, trading
         S = B.gen_market(rnd, ndays=rnd.randrange(10, 26))
         S["_plan_generic_close"] = True       # only this check's stream runs the scenario of finding F12 (generic CLOSE + CLOSE_TODAY resting together)
-        return S, trading.gen_config(rnd, S, None)
+        cfgk = trading.gen_config(rnd, S, None)
+        # the two position-validation switches are independent: one of them off must not silence the other
+        sw = rnd.random()
+        if sw < 0.2:
+            cfgk["accounts_mod"]["validate_future_position"] = False
+        elif sw < 0.3:
+            cfgk["accounts_mod"]["validate_stock_position"] = False
+        return S, cfgk
     tstream.stream(ctx, ctx.n(60, 3000), corrs, [monitors.c10_monitor], gen=gen, extra_sync=lambda c, tr, ix: sync_misc.validators_sync(c, vc, tr, ix))
 
 
